@@ -224,8 +224,22 @@ impl Prop for C17 {
                 _ => 0,
             };
             let extra = r.extra.max(need);
+            // every fifth row pads its columns with blanks (kept verbatim: columns are TAB-separated);
+            // the last column gets no trailing blank, the line reader drops white space at the line end
+            let padded = i % 5 == 2;
             let rest = (0..extra)
-                .map(|k| if k == 0 { format!("reg{}", i) } else { format!("c{}_{}", k, i % 7) })
+                .map(|k| {
+                    let col = if k == 0 { format!("reg{}", i) } else { format!("c{}_{}", k, i % 7) };
+                    if !padded {
+                        col
+                    } else if k + 1 == extra {
+                        format!(" {}", col)
+                    } else if k % 2 == 0 {
+                        format!(" {} ", col)
+                    } else {
+                        format!("{}  ", col)
+                    }
+                })
                 .collect::<Vec<_>>()
                 .join("\t");
             rows.push(Row { chrom: ch.name.clone(), s, e, rest, ci });
